@@ -34,8 +34,8 @@ def split(trace, shards, work, header='{"ev":"Prog"'):
     return files, secs
 
 
-def validate(trace, module, cfg, shards, work):
-    files, secs = split(trace, shards, work)
+def validate(trace, module, cfg, shards, work, header='{"ev":"Prog"'):
+    files, secs = split(trace, shards, work, header)
 
     def one(p):
         out, gen, dist, rc = tlc(module, cfg, work, env={"TRACE": p}, workers=1, timeout=3000)
@@ -93,9 +93,12 @@ def check_fifo(prop, tier, seed, replay):
         gdist = ggen = 0
         if replay:
             rp = json.load(open(replay))
-            with open(progs, "w") as f:
-                f.write(json.dumps(rp["prog"]) + "\n")
-            settings = [rp.get("sendbuf", 0)]
+            if rp.get("life"):
+                settings = []
+            else:
+                with open(progs, "w") as f:
+                    f.write(json.dumps(rp["prog"]) + "\n")
+                settings = [rp.get("sendbuf", 0)]
             maxp = 0
         else:
             gcfg = ("SPECIFICATION Spec\nCONSTANTS\n  Family = \"%s\"\n  Len3 = %s\nINVARIANT Emit\nCHECK_DEADLOCK FALSE\n"
@@ -173,6 +176,25 @@ def check_fifo(prop, tier, seed, replay):
                     json.dump({"property": prop, "prog": json.loads(sec[0])["prog"], "sendbuf": sb, "rejected_event": ev,
                                "rejected": rec, "trace": [json.loads(x) for x in sec]}, open(path, "w"), indent=1)
                     reported.append(path)
+        # C03: FIFO across a stream break with a send buffer (scripted scenario, validated by the same monitor)
+        nscen = 0
+        if prop == "C03" and (not replay or json.load(open(replay)).get("life")):
+            import check_life
+            lt = os.path.join(work, "life.ndjson")
+            only = json.load(open(replay))["scenario"] if replay else None
+            log(check_life.run_life("C03", lt, os.path.join(work, "life.json"), only=only, reps=1 if tier == "quick" else 5))
+            if '"infeasible":"' in open(lt).read().replace('"infeasible":""', ""):
+                raise Infra("infeasible C03 scenario")
+            lbad, lsecs, ts = validate(lt, "FifoTrace", FIFO_TCFG, 1, work, header='{"ev":"Scen"')
+            tstates += ts
+            nscen = len(lsecs)
+            allbad += len({t for t, _, _ in lbad})
+            for t, ev, rec in lbad[:3]:
+                hdr = json.loads(section(lsecs, t)[0])
+                path = next_replay_path(prop)
+                json.dump({"property": prop, "life": True, "scenario": "%s:%s" % (hdr["name"], hdr["kind"]),
+                           "rejected_event": ev, "rejected": rec}, open(path, "w"), indent=1)
+                reported.append(path)
         if replay:
             if allbad:
                 log("VIOLATION property=%s replay=%s" % (prop, replay))
@@ -188,6 +210,7 @@ def check_fifo(prop, tier, seed, replay):
                        (prop, " and selected triples" if len3 else ""),
                "samples": samples, "exhaustive": exhaustive, "programs_generated": gdist, "calls": total_calls,
                "trace_events": total_events, "trace_states": tstates, "send_buffers": settings,
+               "stream_break_scenarios": nscen,
                "design_level": design}
         write_evidence(prop, tier, seed, "model_checking", cov, time.time() - t0, allbad,
                        ["Before(c1,c2) is taken from the driver's StubRet/StubCall events (happens-before of one goroutine)",
@@ -223,7 +246,11 @@ def check_routing(prop, tier, seed, replay):
         progs = os.path.join(work, "progs.ndjson")
         if replay:
             rp = json.load(open(replay))
-            if rp.get("scenario") == "m3":
+            if rp.get("life"):
+                t1 = os.path.join(work, "re.ndjson")
+                check_life.run_life("C18", t1, os.path.join(work, "re.json"), only=rp["scenario"])
+                bad, _, _ = check_life.validate_life(t1, work)
+            elif rp.get("scenario") == "m3":
                 mt = os.path.join(work, "m3.ndjson")
                 p = run([os.path.join(BUILD, "drive"), "m3", "-out", mt, "-seed", str(rp["seed"]), "-runs", str(m3[0]),
                          "-goroutines", str(m3[1]), "-calls", str(m3[2]), "-cancel", "any", "-alphabet", "routing"],
@@ -259,6 +286,7 @@ def check_routing(prop, tier, seed, replay):
             raise Infra("FifoGen failed:\n" + gout[-3000:])
         reported, allbad, total_exec, total_calls, nontriv, tstates = [], 0, 0, 0, 0, 0
         samples = []
+        unconfirmed = []
         for sb in (0, 2):
             trace = os.path.join(work, "trace-%d.ndjson" % sb)
             stats = os.path.join(work, "stats-%d.json" % sb)
@@ -288,12 +316,39 @@ def check_routing(prop, tier, seed, replay):
                         b1, _, _ = validate(t1, "RoutingTrace", FIFO_TCFG, 1, work)
                         hits += 1 if b1 else 0
                     if hits == 0:
-                        raise Infra("timing-dependent rejection of program %d did not reproduce" % t)
+                        # not a verdict; go on with the other phases (they may decide) and report it at the end
+                        unconfirmed.append("timing-dependent rejection of program %d (%s) did not reproduce" % (t, ev))
+                        continue
                 if len(reported) < 3:
                     path = next_replay_path(prop)
                     json.dump({"property": prop, "prog": json.loads(sec[0])["prog"], "sendbuf": sb, "rejected_event": ev,
                                "rejected": rec, "trace": [json.loads(x) for x in sec]}, open(path, "w"), indent=1)
                     reported.append(path)
+        # C18: scripted scenarios (a send that fails after the health check, a context ending during the write,
+        # a stream replaced behind the receiver): no per-call goroutine and no router may be left
+        nscen = 0
+        if prop == "C18":
+            lt = os.path.join(work, "life.ndjson")
+            log(check_life.run_life("C18", lt, os.path.join(work, "life.json")))
+            lbad, _, llines = check_life.validate_life(lt, work)
+            nscen = sum(1 for x in llines if '"ev":"Scen"' in x)
+            for hdr, rec in lbad:
+                if hdr.get("infeasible"):
+                    raise Infra("infeasible scenario %s:%s %s" % (hdr.get("name"), hdr.get("kind"), hdr.get("infeasible")))
+                only = "%s:%s" % (hdr.get("name"), hdr.get("kind"))
+                hits = 0
+                for _ in range(2):
+                    t1 = os.path.join(work, "re.ndjson")
+                    check_life.run_life("C18", t1, os.path.join(work, "re.json"), only=only)
+                    b1, _, _ = check_life.validate_life(t1, work)
+                    hits += 1 if b1 else 0
+                if hits == 0:
+                    raise Infra("rejection of scenario %s did not reproduce" % only)
+                if len(reported) < 3:
+                    path = next_replay_path(prop)
+                    json.dump({"property": prop, "scenario": only, "life": True, "rejected": rec}, open(path, "w"), indent=1)
+                    reported.append(path)
+                allbad += 1
         # free workloads
         mt = os.path.join(work, "m3.ndjson")
         p = run([os.path.join(BUILD, "drive"), "m3", "-out", mt, "-stats", os.path.join(work, "m3.json"), "-seed", str(seed),
@@ -322,7 +377,8 @@ def check_routing(prop, tier, seed, replay):
                        "configurations, late replies, errors, cancellations at arbitrary instants)" %
                        (" and ordered pairs" if len3 else "", m3calls),
                "samples": samples, "exhaustive": not len3, "design_level": design, "programs": total_exec,
-               "calls": total_calls, "m3_calls": m3calls, "trace_states": tstates, "decides": ROUTING_OWN[prop]}
+               "calls": total_calls, "m3_calls": m3calls, "trace_states": tstates, "decides": ROUTING_OWN[prop],
+               "lifecycle_scenarios": nscen}
         write_evidence(prop, tier, seed, "model_checking", cov, time.time() - t0, allbad,
                        ["the router count is logged inside the router mutex; Route is logged before the hand-over to the "
                         "call's channel, so it always precedes the call's CallRecv",
@@ -332,6 +388,8 @@ def check_routing(prop, tier, seed, replay):
             for pth in reported:
                 log("VIOLATION property=%s replay=%s" % (prop, pth))
             return 1
+        if unconfirmed:
+            raise Infra("; ".join(unconfirmed[:3]))
         log("OK %s %s: %d programs + %d free calls validated in %.1fs" % (prop, tier, total_exec, m3calls, time.time() - t0))
         return 0
     finally:
